@@ -345,6 +345,9 @@ func runBatch(bin string, a *agg, budget time.Duration, free bool, workers int, 
 				if free {
 					args = append(args, "-verif.free")
 				}
+				if v := os.Getenv("VERIF_RECHECK"); v != "" {
+					args = append(args, "-verif.recheck="+v)
+				}
 				cmd := exec.Command(bin, args...)
 				cmd.Env = workerEnv(free)
 				cmd.Dir = work
@@ -869,6 +872,7 @@ func check() int {
 	}
 	byClass := map[string]*finding{}
 	var order []string
+	trouble := 0
 	add := func(class string, plan map[string]any, res *result, crash string, free bool) {
 		f := byClass[class]
 		if f == nil {
@@ -885,6 +889,11 @@ func check() int {
 			v := &src.viol[i]
 			seen := map[string]bool{}
 			for _, x := range v.Result.Violations {
+				if strings.HasPrefix(x.Class, "harness") {
+					trouble++
+					fmt.Fprintf(os.Stderr, "harness self-check failed in plan %d: %s\n", idx(v.Plan), x.Detail)
+					continue
+				}
 				if !seen[x.Class] {
 					seen[x.Class] = true
 					r := v.Result
@@ -896,7 +905,6 @@ func check() int {
 		}
 	}
 	// crashes: re-run the suspected plan alone
-	trouble := 0
 	for _, src := range []*agg{a, fa} {
 		for _, c := range src.crashes {
 			if c.Index < 0 {
